@@ -476,6 +476,21 @@ def sub_results(c, point):
     return out
 
 
+def nonzero_ics(c):
+    """names of the components that carry a non-zero initial condition"""
+    out = []
+    for name in c.analysis.ics:
+        cpt = c.elements[name].cpt
+        try:
+            ic = cpt.v0 if hasattr(cpt, 'v0') else cpt.i0
+            if sp.sympify(getattr(ic, 'sympy', ic)) == 0:
+                continue
+        except Exception:
+            pass
+        out.append(name)
+    return out
+
+
 def run_circuit(case):
     point = {'s': sp.Rational(case.get('s0', '2')), 'omega': sp.Rational(case.get('w0', '3/2')),
              '__eps__': sp.Rational(case.get('eps', '1/7'))}
@@ -517,7 +532,7 @@ def run_circuit(case):
         try:
             k = c.kill_except(g)
             d = {'netlist': str(k).split('\n'), 'is_ivp': bool(k.is_IVP), 'is_time_domain': bool(k.is_time_domain),
-                 'ics': list(k.analysis.ics)}
+                 'ics': nonzero_ics(k)}
             d['sub'] = sub_results(k, point)
             d['api'] = api_dump(k, point, cheap, names, nodes, 'lite')
             killed[g] = d
